@@ -889,6 +889,9 @@ class Layout:
         self.hints = hints
         self.comment_quotes = comment_quotes
         self.sl_comments = sl_comments
+        # '# ' with an empty body is known finding D25 (the serializer strips
+        # the blank that makes '#' a comment opener)
+        self.empty_hash_comments = False
         self.comment_log = []
 
     def comment(self):
@@ -913,7 +916,10 @@ class Layout:
         hint = self.hints and rng.random() < 0.25
         if self.sl_comments and rng.random() < 0.4:
             body = body.replace('\n', ' ')
-            return ('--' + ('+' if hint else '')
+            # MySQL style '# ' comments (the blank belongs to the opener)
+            opener = '# ' if rng.random() < 0.2 and (
+                body.strip() or self.empty_hash_comments) else '--'
+            return (opener + ('+' if hint else '')
                     + (' ' if not hint or rng.random() < 0.5 else '') + body
                     + rng.choice(['\n', '\n', '\r\n']))
         if body.startswith('+') and not hint:
@@ -940,9 +946,12 @@ class Layout:
                 return self.one_ws()
             return '' if rng.random() < 0.5 else self.one_ws()
         for k in range(ncom):
-            if rng.random() < 0.7 or (after_op and k == 0):
+            c = self.comment()
+            # '#' would fuse with a preceding word / operator character
+            if rng.random() < 0.7 or (after_op and k == 0) \
+                    or (c.startswith('#') and k == 0):
                 parts.append(self.one_ws())
-            parts.append(self.comment())
+            parts.append(c)
         if rng.random() < 0.7:
             parts.append(self.one_ws())
         return ''.join(parts)
